@@ -74,6 +74,65 @@ pub fn worker(case: &Value) -> Value {
         return json!({"n": 1, "bad": [], "observed": {"stdout": o.stdout_str(), "end": format!("{:?}", o.end)}});
     }
     let kind = case["k"].as_str().unwrap_or("");
+    if kind == "header" {
+        // a failing block header (condition, SELECT subject, CASE test, FOR bound) under ON ERROR GOTO + RESUME:
+        // the handler repairs the operand and RESUME evaluates the header again, so apart from the handler's own
+        // line the program prints what it prints when the operand is right from the start
+        const HEADERS: [(&str, &str); 14] = [
+            ("IF condition", "IF 6 / Z% = 3 THEN\nPRINT \"then\"\nELSE\nPRINT \"else\"\nEND IF"),
+            ("ELSEIF condition", "IF 0 THEN\nPRINT \"then\"\nELSEIF 6 / Z% = 3 THEN\nPRINT \"elseif\"\nELSE\nPRINT \"else\"\nEND IF"),
+            ("second ELSEIF condition", "IF 0 THEN\nPRINT \"then\"\nELSEIF 0 THEN\nPRINT \"first elseif\"\nELSEIF 6 / Z% = 3 THEN\nPRINT \"second elseif\"\nEND IF"),
+            ("single-line IF condition", "IF 6 / Z% = 3 THEN PRINT \"then\" ELSE PRINT \"else\""),
+            ("WHILE condition", "WHILE N% < 1 AND 6 / Z% = 3\nN% = N% + 1\nPRINT \"body\"; N%\nWEND"),
+            ("DO WHILE condition", "DO WHILE N% < 1 AND 6 / Z% = 3\nN% = N% + 1\nPRINT \"body\"; N%\nLOOP"),
+            ("DO UNTIL condition", "DO UNTIL N% >= 1 OR 6 / Z% <> 3\nN% = N% + 1\nPRINT \"body\"; N%\nLOOP"),
+            ("LOOP WHILE condition", "DO\nN% = N% + 1\nPRINT \"body\"; N%\nLOOP WHILE N% < 2 AND 6 / Z% = 3"),
+            ("LOOP UNTIL condition", "DO\nN% = N% + 1\nPRINT \"body\"; N%\nLOOP UNTIL N% >= 2 OR 6 / Z% <> 3"),
+            ("SELECT CASE subject", "SELECT CASE 6 / Z%\nCASE 3\nPRINT \"three\"\nCASE ELSE\nPRINT \"other\"\nEND SELECT"),
+            ("first CASE test", "SELECT CASE 3\nCASE 6 / Z%\nPRINT \"match\"\nCASE ELSE\nPRINT \"other\"\nEND SELECT"),
+            ("second CASE test", "SELECT CASE 3\nCASE 1\nPRINT \"one\"\nCASE 6 / Z%\nPRINT \"match\"\nCASE ELSE\nPRINT \"other\"\nEND SELECT"),
+            ("FOR start", "FOR I% = 6 / Z% TO 4\nPRINT \"i\"; I%\nNEXT"),
+            ("FOR limit", "FOR I% = 2 TO 6 / Z%\nPRINT \"i\"; I%\nNEXT"),
+        ];
+        let mut bads = vec![];
+        let mut hist: std::collections::BTreeMap<String, u64> = Default::default();
+        let mut n = 0u64;
+        for (name, block) in HEADERS {
+            for in_sub in [false, true] {
+                let wrap = |z0: i32, handler: bool| -> String {
+                    let body = format!("PRINT \"start\"\n{}\nPRINT \"done\"; ERR\n", block);
+                    let on = if handler { "ON ERROR GOTO H\n" } else { "" };
+                    if in_sub {
+                        format!("DIM SHARED Z%\nZ% = {}\n{}Work\nPRINT \"back\"\nEND\nH:\nPRINT \"h\"; ERR\nZ% = 2\nRESUME\nSUB Work\n{}END SUB\n", z0, on, body)
+                    } else {
+                        format!("DIM SHARED Z%\nZ% = {}\n{}{}END\nH:\nPRINT \"h\"; ERR\nZ% = 2\nRESUME\n", z0, on, body)
+                    }
+                };
+                let good = wrap(2, false);
+                let faulty = wrap(0, true);
+                let opts = RunOpts { budget: 200_000, ..RunOpts::default() };
+                let og = run_pipeline(&good, &opts);
+                let of = run_pipeline(&faulty, &opts);
+                n += 1;
+                let expect_lines: Vec<String> = og.stdout_str().lines().map(|l| l.to_string()).collect();
+                let got_lines: Vec<String> = of.stdout_str().lines().filter(|l| l.trim() != "h 11").map(|l| l.to_string()).collect();
+                let handler_ran = of.stdout_str().lines().filter(|l| l.trim() == "h 11").count();
+                let ok = matches!(og.end, vcore::outcome::End::Normal) && matches!(of.end, vcore::outcome::End::Normal) && expect_lines == got_lines && handler_ran == 1;
+                if ok {
+                    *hist.entry("agree:header fault resumed".into()).or_insert(0) += 1;
+                } else {
+                    *hist.entry("differ".into()).or_insert(0) += 1;
+                    bads.push(json!({
+                        "sig": format!("C05|header|{}|{}", name, if in_sub { "in a SUB" } else { "module" }),
+                        "summary": format!("{} fails, the handler repairs the operand and RESUMEs: expected the output of the repaired program {:?} plus one handler line, got {:?} (end {}) — program: {:?}", name, og.stdout_str(), of.stdout_str(), of.end.class(), super::truncate_text(&faulty, 500)),
+                        "text": faulty,
+                        "case": {"axis": "text", "text": faulty},
+                    }));
+                }
+            }
+        }
+        return json!({"n": n, "nontrivial": n, "hist": hist, "bad": bads});
+    }
     if kind == "scope" {
         // oracle: the checker rejects the program with Label not defined at the row of the jump
         let mut bads = vec![];
@@ -166,6 +225,8 @@ pub fn drive(tier: &str) -> i32 {
         plan.push(json!({"kind": kind, "programs": t}));
         states += t as u64;
     }
+    cases.push(json!({"k": "header"}));
+    plan.push(json!({"kind": "header", "programs": 28}));
     cases.push(json!({"k": "scope"}));
     plan.push(json!({"kind": "scope", "programs": SCOPE_DIRS.len() * SCOPE_JUMPS.len()}));
     let total_cases = cases.len();
@@ -177,7 +238,7 @@ pub fn drive(tier: &str) -> i32 {
         run.capped = true;
     }
     let mut ev = Evidence::new("model_checking");
-    ev.set("rule", "jump layouts: up to 3 labelled blocks in every order (quick: two orders for 3 blocks), each ending in fall-through / END / RETURN / GOTO x / GOSUB x / RETURN x for every x, entered by fall-through or by GOTO, at module level and inside a SUB, every block counting its executions (the program stops after 7). loop escapes: every nest of 1..3 loops over {FOR, FOR STEP -1, WHILE, DO..LOOP UNTIL} with pairwise distinct bounds, a GOTO from the innermost body to a label in the body of every shallower level and after the nest, a GOSUB to a routine after the nest; the same with IF / ELSE / CASE / CASE ELSE blocks between the loops. jumps into a block: GOTO to a label in the middle of an IF / ELSEIF / ELSE / CASE / CASE ELSE block, a WHILE / DO body or an IF inside a WHILE, at module level and inside a SUB, once and three times in a row. jumps across scopes: GOTO / GOSUB / RETURN label from a SUB to a module-level label, from the module level into a SUB and from one SUB into another must be rejected with Label not defined at the row of the jump. one fault: 9 failing statement kinds (incl. a built-in that fails after a user FUNCTION has returned within the same statement) x 17 containers (main, IF / ELSE / ELSEIF blocks, single-line IF, first / middle / ELSE CASE blocks, FOR / FOR STEP / WHILE / DO bodies, an IF block that ends a FOR body, SUB and FUNCTION bodies, the end of the module with subprograms following) x 3 positions x 6 handler modes x handler action. handler histories: the full tree of sequences up to the depth over {ON ERROR GOTO H1, ON ERROR GOTO H2, ON ERROR GOTO 0, ON ERROR RESUME NEXT, failing statement, trace}. Every program is one path of the reference machine (explicit GOSUB stack, handler mode, pending error) replayed on the implementation; trace output, ERR values and the end state with its row are compared.");
+    ev.set("rule", "jump layouts: up to 3 labelled blocks in every order (quick: two orders for 3 blocks), each ending in fall-through / END / RETURN / GOTO x / GOSUB x / RETURN x for every x, entered by fall-through or by GOTO, at module level and inside a SUB, every block counting its executions (the program stops after 7). loop escapes: every nest of 1..3 loops over {FOR, FOR STEP -1, WHILE, DO..LOOP UNTIL} with pairwise distinct bounds, a GOTO from the innermost body to a label in the body of every shallower level and after the nest, a GOSUB to a routine after the nest; the same with IF / ELSE / CASE / CASE ELSE blocks between the loops. jumps into a block: GOTO to a label in the middle of an IF / ELSEIF / ELSE / CASE / CASE ELSE block, a WHILE / DO body or an IF inside a WHILE, at module level and inside a SUB, once and three times in a row. failing block headers: an IF / ELSEIF / second ELSEIF / single-line IF / WHILE / DO WHILE / DO UNTIL / LOOP WHILE / LOOP UNTIL condition, a SELECT CASE subject, a first / second CASE test, a FOR start / limit that divides by zero under ON ERROR GOTO + RESUME (the handler repairs the divisor), at module level and in a SUB: apart from the handler's line the output is that of the repaired program. jumps across scopes: GOTO / GOSUB / RETURN label from a SUB to a module-level label, from the module level into a SUB and from one SUB into another must be rejected with Label not defined at the row of the jump. one fault: 9 failing statement kinds (incl. a built-in that fails after a user FUNCTION has returned within the same statement) x 17 containers (main, IF / ELSE / ELSEIF blocks, single-line IF, first / middle / ELSE CASE blocks, FOR / FOR STEP / WHILE / DO bodies, an IF block that ends a FOR body, SUB and FUNCTION bodies, the end of the module with subprograms following) x 3 positions x 6 handler modes x handler action. handler histories: the full tree of sequences up to the depth over {ON ERROR GOTO H1, ON ERROR GOTO H2, ON ERROR GOTO 0, ON ERROR RESUME NEXT, failing statement, trace}. Every program is one path of the reference machine (explicit GOSUB stack, handler mode, pending error) replayed on the implementation; trace output, ERR values and the end state with its row are compared.");
     ev.set("exhaustive", !run.capped);
     ev.set("plan", json!(plan));
     ev.set("states", states);
